@@ -109,6 +109,24 @@ def do_op(root: Path, op: str, spelling: str, out_tag: str):
         s.dump(t)
         r = dictIO.SDict().load(t)
         return ("data+bytes", (canon(r), (root / f"dump_{out_tag}").read_bytes()))
+    if op == "writeback":
+        # read a file with reduced content (comments and includes off, a scope), then write the dict back to the file it
+        # came from (append is the default mode: the file keeps what the dict no longer has)
+        wb = root / f"wb_{out_tag}"
+        wb.write_text("keep  1;\n// a comment\nscope\n{\n    inner  2;\n}\ngone  3;\n")
+        d = dictIO.DictReader.read(P(f"wb_{out_tag}"), comments=False, scope=["scope"])
+        d["added"] = 4
+        dictIO.DictWriter.write(d, P(f"wb_{out_tag}"))
+        return ("bytes", wb.read_bytes())
+    if op == "loaddump":
+        ld = root / f"ld_{out_tag}"
+        ld.write_text("keep  1;\ngone  3;\n")
+        sd = dictIO.SDict()
+        sd.load(P(f"ld_{out_tag}"))
+        del sd["gone"]
+        sd["added"] = 4
+        sd.dump(P(f"ld_{out_tag}"))
+        return ("data", canon(dictIO.DictReader.read(ld)))
     if op == "reset":
         dictIO.SDict().reset()
         return None
@@ -116,7 +134,7 @@ def do_op(root: Path, op: str, spelling: str, out_tag: str):
 
 
 PREFIX_OPS = ["read1", "read2", "read3", "write", "parse", "dumpload", "reset", "read1o"]
-OBSERVED = ["read1", "read1o", "read1n", "read2", "read3", "write", "writeo", "parse", "parseo", "parsej", "dumpload"]
+OBSERVED = ["read1", "read1o", "read1n", "read2", "read3", "write", "writeo", "parse", "parseo", "parsej", "dumpload", "writeback", "loaddump"]
 CWDS = [".", "sub", "sub/deep", "other"]
 # every offset of the wrap inside one read of f1 (about 14 placeholders): each placeholder gets id 0 under one of them
 COUNTERS = [-1, 5] + list(range(999984, 1000000))
